@@ -20,20 +20,23 @@ import (
 
 // ---- switches ----
 
-// c11NamedScalarLeaves enables named scalar leaf types (shape.Level, Count,
-// Ratio, Flag, Name, Timeout, Color).  They currently panic through the env
-// source (defect C16, tracked separately); switch on once that is repaired.
-var c11NamedScalarLeaves = os.Getenv("C11_NAMED_SCALARS") == "1"
+// c11NamedScalarLeaves: named scalar leaf types (shape.Level, Count, Ratio,
+// Flag, Name, Timeout, Color) and collections of them.  They panicked through
+// the env source before the C16 repair (parse.String now converts to the
+// requested type); C11_NAMED_SCALARS=0 switches them off again.
+var c11NamedScalarLeaves = os.Getenv("C11_NAMED_SCALARS") != "0"
 
-// c11PanickyCollections enables *[]T, *map[..]T and [][]T leaves, which panic
-// in the string-casting mangler / parse.String (reported with this check).
-var c11PanickyCollections = os.Getenv("C11_PANICKY_COLLECTIONS") == "1"
+// c11PanickyCollections: *[]T, *map[..]T and [][]T leaves, which panicked in
+// the string-casting mangler / parse.String before their repair;
+// C11_PANICKY_COLLECTIONS=0 switches them off again.
+var c11PanickyCollections = os.Getenv("C11_PANICKY_COLLECTIONS") != "0"
 
 var c11GoodLeafTypes = []string{
 	"bool", "int", "int8", "int16", "int32", "int64", "uint", "uint8", "uint16", "uint32", "uint64",
 	"float32", "float64", "complex64", "complex128", "string", "string", "time.Duration",
 	"*int", "*string", "*bool", "*float64", "*time.Duration", "*uint8",
 	"[]string", "[]string", "[]int", "[]int8", "[]int64", "[]uint16", "[]uint64", "[]float64", "[]bool", "[]time.Duration",
+	"[]float32", "[]complex64", "[]complex128", "map[string]float32", "map[string]complex64", "map[string]complex128",
 	"map[string]int", "map[string]string", "map[string]struct{}", "map[string][]string", "map[string]float64", "map[string]bool", "map[string]time.Duration", "map[string]uint8",
 	"Names", "Nums", "Limits", "Labels",
 }
@@ -42,8 +45,8 @@ var c11GoodLeafTypes = []string{
 // error): they are generated, never given a variable, and must stay unset.
 var c11InertLeafTypes = []string{"time.Time", "Stamp", "[3]int", "uintptr", "**int", "net.IP", "[]*int"}
 
-var c11NamedScalarTypes = []string{"Level", "Count", "Ratio", "Flag", "Name", "Timeout", "Color"}
-var c11PanickyTypes = []string{"*[]int", "*map[string]int", "[][]int"}
+var c11NamedScalarTypes = []string{"Level", "Count", "Ratio", "Flag", "Name", "Timeout", "Color", "[]Level", "[]Name", "map[string]Level", "map[string]Ratio", "*Count"}
+var c11PanickyTypes = []string{"*[]int", "*[]string", "*map[string]int", "[][]int", "[][]string"}
 
 func c11IsInert(typ string) bool {
 	for _, t := range c11InertLeafTypes {
@@ -725,7 +728,7 @@ const c11Rule = "config struct types from the shape grammar restricted to leaves
 var c11Assumptions = []string{
 	"the environment is process-global: cases run sequentially, every touched variable (all leaf names of the case, noise, skipped-field names) is saved, cleared before the call and restored afterwards",
 	"the empty map key is written quoted (\"\":v), as the repaired splitMap accepts it",
-	"named scalar leaf types are excluded until C16 is repaired (C11_NAMED_SCALARS=1 enables them); *[]T, *map and [][]T are excluded because they panic (C11_PANICKY_COLLECTIONS=1 enables them)",
+	"named scalar leaf types (and collections of them) and *[]T, *map, [][]T leaves are included since their repairs; C11_NAMED_SCALARS=0 / C11_PANICKY_COLLECTIONS=0 exclude them again",
 	"integers are parsed with base 0 (as parse.parseNumber does), so a small share of integer texts carry a 0x prefix or a + sign",
 	"two leaves whose names coincide legitimately share one variable; such a group is only given a value when all its leaves have the same type",
 	"ALL-CAPS / UPPER_SNAKE `dials` tags are outside the domain: the env source decodes dials tags with caseconversion.DecodeGoTags, which documents only CamelCase, snake_case and kebab-case with fully capitalised acronyms and reads an all-caps word as an acronym run by design",
